@@ -596,10 +596,16 @@ pub enum Parse3 {
 pub fn rate_parseable(s: &str) -> Parse3 {
     let t = s.strip_prefix('-').unwrap_or(s);
     match parse_dec(t) {
-        Some(d) if d.form == Form::Plain && !s.starts_with("--") => Parse3::Yes,
+        Some(d) if (d.form == Form::Plain || d.form == Form::Padded) && !s.starts_with("--") => Parse3::Yes,
         Some(_) => Parse3::Unclear,
+        // digits and one point, but longer than the oracle reads: a rounding parser may well take it
+        None if looks_decimal(t) => Parse3::Unclear,
         None => Parse3::No,
     }
+}
+
+fn looks_decimal(s: &str) -> bool {
+    !s.is_empty() && s.bytes().all(|b| b.is_ascii_digit() || b == b'.') && s.bytes().filter(|b| *b == b'.').count() <= 1 && s.bytes().any(|b| b.is_ascii_digit())
 }
 
 pub fn instantiate_verdict(m: &Value) -> Verdict {
@@ -731,6 +737,8 @@ pub fn rates_equal(a: &Option<FeeCfg>, b: &Option<FeeCfg>) -> bool {
             // decimal cannot tell them apart from their rounding, so their equality is not judged
             (Some(p), Some(q)) if p.form == Form::Gray || q.form == Form::Gray => true,
             (Some(p), Some(q)) => p.eq_val(&q),
+            // longer than the oracle reads (same gray zone)
+            _ if looks_decimal(&x.rate) && looks_decimal(&y.rate) => true,
             _ => x.rate == y.rate,
         },
         _ => false,
